@@ -170,7 +170,15 @@ impl G {
         let mut nodes = Vec::new();
         for op in &self.ops {
             *ctr += 1;
-            let nm = format!("n{}", *ctr);
+            // node name = `n_v<first output>`: lets error messages be matched to the operator
+            let first_out = match op {
+                Op::P { out, .. } => Some(*out),
+                Op::If { outs, .. } | Op::Lp { outs, .. } => outs.first().copied(),
+            };
+            let nm = match first_out {
+                Some(o) => format!("n_v{o}"),
+                None => format!("n{}", *ctr),
+            };
             match op {
                 Op::P { k: K::Mm, ins, out } => {
                     let a = format!("v{out}a");
@@ -290,6 +298,8 @@ struct Events {
     iters: u32,
     zero_iter: u32,
     zero_iter_scan: u32,
+    /// every zero-iteration loop with scan outputs the reference run met: `n_v<out> k/n`
+    zscan: Vec<String>,
     cond_false_start: u32,
     scan: u32,
     max_depth: u32,
@@ -461,11 +471,17 @@ fn eval_graph(
                     if nscan > 0 {
                         ev.zero_iter_scan += 1;
                         // ONNX: empty scan outputs; rten: "operator returned k outputs but expected n".
-                        return Err("zero_iter_scan".into());
+                        // Recorded; the reference run goes on with empty scan outputs so that every
+                        // such loop of the program is known (rten may meet a different one first).
+                        ev.zscan.push(format!("n_v{} {}/{}", outs.first().copied().unwrap_or(0), k, k + nscan));
                     }
                 }
                 let mut res = carried;
                 for s in scans {
+                    if s.is_empty() {
+                        res.push((T { shape: vec![0], data: vec![] }, "zs".into()));
+                        continue;
+                    }
                     // all iterations must agree on the element shape
                     let sh = s[0].0.shape.clone();
                     if s.iter().any(|x| x.0.shape != sh) {
@@ -1351,10 +1367,28 @@ fn to_rt(t: &T) -> RTensor<i32> {
     RTensor::from_data(&t.shape, t.data.clone())
 }
 
+/// `… operator "NAME" output mismatch: operator returned K outputs but expected N` → `NAME K/N`
+/// (innermost = last occurrence).
+fn output_mismatch_detail(msg: &str) -> Option<String> {
+    let key = "\" output mismatch: operator returned ";
+    let at = msg.rfind(key)?;
+    let name_start = msg[..at].rfind('"')? + 1;
+    let name = &msg[name_start..at];
+    let rest = &msg[at + key.len()..];
+    let mut it = rest.split_whitespace();
+    let k = it.next()?;
+    let n = it.nth(3)?; // "outputs" "but" "expected" N
+    let n: String = n.chars().take_while(|c| c.is_ascii_digit()).collect();
+    Some(format!("{name} {k}/{n}"))
+}
+
 fn classify_run_err(msg: &str) -> String {
     let m = msg.to_lowercase();
     if m.contains("outputs but expected") {
-        "err:output_mismatch".into()
+        match output_mismatch_detail(msg) {
+            Some(d) => format!("err:output_mismatch {d}"),
+            None => format!("err:output_mismatch ? {}", msg.replace(['\n', '\t'], " ")),
+        }
     } else if m.contains("planning") {
         "err:plan".into()
     } else {
@@ -1373,7 +1407,7 @@ fn run_model(bytes: &[u8], opt: bool, owned: bool, prepack: bool, in_names: &[St
                 // a zero-iteration loop with scan outputs whose inputs are constants is run by
                 // constant propagation at load time: same deviation, reported at load.
                 if m.contains("outputs but expected") {
-                    return "err:output_mismatch".into();
+                    return classify_run_err(&m);
                 }
                 return format!("err:load {m}");
             }
@@ -1431,17 +1465,27 @@ fn eval_case(tag: &str, g: &G, ins: &[T]) -> Evald {
     let mut ev = Events::default();
     let args: Vec<(T, String)> = g.inputs.iter().zip(ins).map(|(n, t)| (t.clone(), vn(*n))).collect();
     let refr = eval_graph(g, &Env::new(), args, &mut flat, &mut ev, 0);
+    let refr = if ev.zscan.is_empty() || refr.is_err() { refr } else { Err("zero_iter_scan".to_string()) };
 
-    // request line; the tag records that the reference run met a zero-iteration loop with scan
-    // outputs (known deviation from ONNX, see findings/C24.json)
-    let tag = if ev.zero_iter_scan > 0 { format!("{tag}-zscan") } else { tag.to_string() };
+    // request line; the tag records that the reference run met zero-iteration loops with scan
+    // outputs (known deviation from ONNX, see findings/C24.json) and which ones
+    let tag = if !ev.zscan.is_empty() {
+        format!("{tag}-zscan[{}]", ev.zscan.iter().map(|z| z.replace(' ', ":")).collect::<Vec<_>>().join(","))
+    } else {
+        tag.to_string()
+    };
     let mut toks: Vec<String> = vec!["run".into(), tag];
     g.tokens(&mut toks);
     toks.push("ARGS".into());
     for t in ins {
         toks.push(t.tokens());
     }
-    let req = toks.join(" ");
+    // Observation-only scenario (not a property check, request not compared with the model): a
+    // branch whose output is directly an outer-scope value. rten rejects the model at planning
+    // time in every configuration, as onnxruntime does ("add an Identity node"); the property is
+    // about running control-flow subgraphs, so a consistent clean rejection is only recorded.
+    let observe_rejected = toks[1].starts_with("s9_");
+    let req = if observe_rejected { format!("# {}", toks.join(" ")) } else { toks.join(" ") };
 
     let mut ctr = 0usize;
     let nested = g.onnx(&mut ctr).into_model_bytes(21);
@@ -1457,12 +1501,22 @@ fn eval_case(tag: &str, g: &G, ins: &[T]) -> Evald {
     }
     let ans = answers[0].1.clone();
     let mut fail: Option<String> = None;
+    if observe_rejected {
+        // still a failure if some configuration panics or *runs* the model to a wrong value
+        for ((opt, owned), a) in &answers {
+            let rejected = a == "err:plan" || (a.starts_with("err:load") && a.contains("Source node not found for output"));
+            if !rejected && fail.is_none() {
+                fail = Some(format!("model with a branch output that is an outer-scope value was not rejected cleanly: opt={opt} owned={owned} gives `{a}`"));
+            }
+        }
+        return Evald { req, ans, fail, ev };
+    }
     for ((opt, owned), a) in &answers {
         if a.starts_with("panic") && fail.is_none() {
             fail = Some(format!("panic in nested run opt={opt} owned={owned}: {a}"));
         }
     }
-    if fail.is_none() {
+    if fail.is_none() && ev.zscan.is_empty() {
         for ((opt, owned), a) in &answers[1..] {
             if *a != ans {
                 fail = Some(format!("configurations disagree: opt=false owned=false gives `{ans}` but opt={opt} owned={owned} gives `{a}`"));
@@ -1512,9 +1566,21 @@ fn eval_case(tag: &str, g: &G, ins: &[T]) -> Evald {
             }
         }
         Err(e) if e == "zero_iter_scan" => {
-            // documented deviation: rten returns an error instead of empty scan outputs.
-            if fail.is_none() && !ans.starts_with("err:output_mismatch") {
-                fail = Some(format!("zero-iteration loop with scan outputs: expected err:output_mismatch, got `{ans}`"));
+            // documented deviation: rten returns an error instead of empty scan outputs. Every
+            // configuration must fail at ONE OF the zero-iteration scan loops of the reference run,
+            // with exactly its output counts (plan order / load-time constant propagation decide
+            // which one is met first).
+            if fail.is_none() {
+                for ((opt, owned), a) in &answers {
+                    let ok = ev.zscan.iter().any(|z| *a == format!("err:output_mismatch {z}"));
+                    if !ok {
+                        fail = Some(format!(
+                            "zero-iteration loop with scan outputs: expected err:output_mismatch at one of [{}], but opt={opt} owned={owned} gives `{a}`",
+                            ev.zscan.join(", ")
+                        ));
+                        break;
+                    }
+                }
             }
         }
         Err(e) => {
